@@ -21,7 +21,7 @@ def _plan(tier, seed):
 
     p = grid_plan(tier, seed, "C05")
     ladder = []
-    for nf in ((50, 100, 200) if tier == "quick" else (50, 100, 200, 400)):
+    for nf in ((60, 100, 200) if tier == "quick" else (60, 100, 200, 400)):
         ladder.append(cases.tok("lsn", s=1, fs=1, tag="c05-nfine-%d" % nf, finecontour_Nfine=nf))
     p["cases"] = p["cases"] + ladder
     p["jobs"] = [{"name": "c05-nfine-ladder", "module": "vmon.jobs.ladder", "args": {"mode": "nfine", "cases": ladder, "cls": "Nfine ladder"}, "timeout": 1200}]
